@@ -264,17 +264,24 @@ def fixed_corpus():
     """two fixed packages at the head of every run (inside the guard, judged like the generated ones):
     j000  -tagcase=camel with two-letter all-caps humps after the first hump (userID -> userId, ClientIP -> clientIp,
           hostOS -> hostOs), own and promoted;
-    j001  a type none of whose OWN fields needs JSON code (exported, explicitly tagged) embedding a shoot type whose
-          accessor field does: it must get its own JSON code (else Go promotes the embedded type's MarshalJSON)"""
+    j001  a chain of three shoot types (Son embeds Base embeds *Grand, accessor fields at every level); none of Son's OWN
+          fields needs JSON code (exported, explicitly tagged) but the promoted accessor fields do: Son must get its own
+          JSON code (else Go promotes Base's MarshalJSON); -tagcase=upper with an explicit tag equal to the name"""
     B, N, f = ctorgen.T_basic, ctorgen.T_named, ctorgen.fdecl
     peer = _sd("Peer", [f(["userID"], B("int"), ["//shoot: get;set"]), f(["ClientIP"], B("string")),
-                        f(["hostOS"], B("string")), f(["peerIP"], B("bool"), ["//shoot: get"])])
-    conn = _sd("Conn", [f([], N("", "Peer")), f(["Port"], B("int")), f(["nodeID"], B("int64"), ["//shoot: set;get"])])
+                        f(["hostOS"], B("string")), f(["peerIP"], B("bool"), ["//shoot: get"]),
+                        # a single capital at the end; a tag equal to the name (kept verbatim, not transformed); json not
+                        # the first key of the tag; a field with a setter and no getter (marshals as zero)
+                        f(["axisX"], B("float64")), f(["planB"], B("string"), ["//shoot: get"]),
+                        f(["secret"], B("string"), ["//shoot: set"])])
+    conn = _sd("Conn", [f([], N("", "Peer")), f(["Port"], B("int")), f(["nodeID"], B("int64"), ["//shoot: set;get"]),
+                        f(["URL"], B("string"), (), '`json:"URL"`'), f(["uid"], B("int"), (), '`db:"u" json:"uid_k"`')])
     a = {"name": "j000", "structs": [peer, conn], "extra_decls": [], "features": {}, "tagcase": "camel"}
-    base = _sd("Base", [f(["name"], B("string"), ["//shoot: get;set"]), f(["Level"], B("int"))])
+    grand = _sd("Grand", [f(["gname"], B("string"), ["//shoot: get;set"]), f(["Depth"], B("int"))])
+    base = _sd("Base", [f([], ("ptr", N("", "Grand"))), f(["name"], B("string"), ["//shoot: get;set"]), f(["Level"], B("int"))])
     son = _sd("Son", [f([], N("", "Base")), f(["Title"], B("string"), (), '`json:"title"`'),
-                      f(["Count"], B("int"), (), '`json:"count"`')])
-    b = {"name": "j001", "structs": [base, son], "extra_decls": [], "features": {}, "tagcase": "lower"}
+                      f(["Count"], B("int"), (), '`json:"Count"`')])
+    b = {"name": "j001", "structs": [grand, base, son], "extra_decls": [], "features": {}, "tagcase": "upper"}
     for pkg in (a, b):
         pkg["order"] = [sd["name"] for sd in pkg["structs"]]
         pkg["rounds"], pkg["getset"] = 1, True
